@@ -46,6 +46,54 @@ REGEX = [None, "^a$", "^b$"]
 EXC = [None, pickle.UnpicklingError, EOFError, AttributeError, ImportError, IndexError]
 
 
+class MTime:
+    """A modification time with sub-second resolution: q quarter-seconds.  Ordering compares q, while int()
+    and float() behave like the real float seconds - so code that truncates mtimes to whole seconds before
+    comparing them (a strictly later edit within the same second) is distinguishable from code that does not."""
+
+    def __init__(self, q):
+        self.q = q
+
+    def _q(self, other):
+        return other.q if isinstance(other, MTime) else other * 4
+
+    def __gt__(self, other):
+        return self.q > self._q(other)
+
+    def __lt__(self, other):
+        return self.q < self._q(other)
+
+    def __ge__(self, other):
+        return self.q >= self._q(other)
+
+    def __le__(self, other):
+        return self.q <= self._q(other)
+
+    def __eq__(self, other):
+        return self.q == self._q(other)
+
+    def __ne__(self, other):
+        return self.q != self._q(other)
+
+    def __hash__(self):
+        return hash(self.q)
+
+    def __int__(self):
+        return self.q // 4
+
+    def __trunc__(self):
+        return self.q // 4
+
+    def __floor__(self):
+        return self.q // 4
+
+    def __round__(self, n=None):
+        return (self.q + 2) // 4
+
+    def __float__(self):
+        return self.q / 4.0
+
+
 class _CaProxy:
     """casadi with `external` (loading a compiled library) replaced: the library 'is' the cached Function."""
 
@@ -76,8 +124,8 @@ def _run(files, m_cache, cache_exists, db, load_exc, options, raw_kind=0):
         if p == FOLDER + "/T.pymoca_cache":
             if not cache_exists:
                 raise FileNotFoundError(p)
-            return m_cache
-        return files[p]
+            return MTime(m_cache)
+        return MTime(files[p])
 
     def _open(p, mode="r", *a, **k):
         if not cache_exists:
@@ -129,7 +177,7 @@ def stale(m_t: int, m_u: int, m_l: int, m_n: int, m_c: int, ch_t: bool, u_presen
     """
     pre: pin(codegen=codegen, lib_new=lib_new, lib_old=lib_old)
     pre: 0 <= rx_old <= 2 and 0 <= rx_new <= 2 and 0 <= lib_old <= 2 and 0 <= lib_new <= 2
-    pre: all(0 <= x <= 5 for x in (m_t, m_u, m_l, m_n, m_c))
+    pre: all(0 <= x <= 9 for x in (m_t, m_u, m_l, m_n, m_c))
     pre: (not ch_t or m_t > m_c) and (not (u_present and u_new) or m_u > m_c) and (not ch_l or m_l > m_c) and (not ch_n or m_n > m_c)
     post: _ == 1
     """
@@ -141,7 +189,7 @@ def stale_other(m_t: int, m_u: int, m_l: int, m_n: int, m_c: int, ch_t: bool, u_
     """
     pre: pin(codegen=codegen, lib_new=lib_new, lib_old=lib_old) and lib_old != lib_new
     pre: 0 <= rx_old <= 2 and 0 <= rx_new <= 2 and 0 <= lib_old <= 2 and 0 <= lib_new <= 2
-    pre: all(0 <= x <= 5 for x in (m_t, m_u, m_l, m_n, m_c))
+    pre: all(0 <= x <= 9 for x in (m_t, m_u, m_l, m_n, m_c))
     pre: (not ch_t or m_t > m_c) and (not (u_present and u_new) or m_u > m_c) and (not ch_l or m_l > m_c) and (not ch_n or m_n > m_c)
     post: _ == 1
     """
@@ -186,7 +234,7 @@ def reach_stale(m_t: int, m_u: int, m_l: int, m_n: int, m_c: int, ch_t: bool, u_
     """
     pre: pin(codegen=codegen, lib_new=lib_new, lib_old=lib_old)
     pre: 0 <= rx_old <= 2 and 0 <= rx_new <= 2 and 0 <= lib_old <= 2 and 0 <= lib_new <= 2
-    pre: all(0 <= x <= 5 for x in (m_t, m_u, m_l, m_n, m_c))
+    pre: all(0 <= x <= 9 for x in (m_t, m_u, m_l, m_n, m_c))
     pre: (not ch_t or m_t > m_c) and (not (u_present and u_new) or m_u > m_c) and (not ch_l or m_l > m_c) and (not ch_n or m_n > m_c)
     post: _ == 0
     """
